@@ -565,7 +565,6 @@ class HealpixLandscape(StokesLandscape):
 
     def tree_flatten(self):  # type: ignore[no-untyped-def]
         aux_data = {
-            'shape': self.shape,
             'dtype': self.dtype,
             'stokes': self.stokes,
             'nside': self.nside,
@@ -603,7 +602,6 @@ class FrequencyLandscape(HealpixLandscape):
 
     def tree_flatten(self):  # type: ignore[no-untyped-def]
         aux_data = {
-            'shape': self.shape,
             'dtype': self.dtype,
             'stokes': self.stokes,
             'nside': self.nside,
